@@ -911,8 +911,11 @@ impl<A: Zeroize + NewBytes + ResizableBytes + Lockable<A>> NewLockedFromSlice<A>
     fn from_slice_into_locked(
         src: &[u8],
     ) -> Result<Protected<Self, traits::ReadWrite, traits::Locked>, crate::error::Error> {
-        let mut res = Self::new_bytes().mlock()?;
-        res.resize(src.len(), 0);
+        // size the buffer before locking it: resizing an already locked region
+        // has to re-lock a new allocation and cannot report a failure
+        let mut bytes = Self::new_bytes();
+        bytes.resize(src.len(), 0);
+        let mut res = bytes.mlock()?;
         res.as_mut_slice().copy_from_slice(src);
         Ok(res)
     }
